@@ -15,7 +15,7 @@ func init() {
 		Mutant{Property: "C18", Name: "success-answered-twice", File: bulk,
 			Old: "\t\t\t} else {\n\t\t\t\tret = append(ret, Result{\n\t\t\t\t\tResponseType: element.Action,\n\t\t\t\t})\n\t\t\t}\n\t\tcase ActionRevertTransaction:", New: "\t\t\t} else {\n\t\t\t\tret = append(ret, Result{\n\t\t\t\t\tResponseType: element.Action,\n\t\t\t\t})\n\t\t\t}\n\t\t\tif len(req.Metadata) == 0 {\n\t\t\t\tret = append(ret, Result{ResponseType: element.Action})\n\t\t\t}\n\t\tcase ActionRevertTransaction:", Expect: "R18a:ProcessBulk:exactly-one-result-per-element"},
 		Mutant{Property: "C18", Name: "failure-flag-only-for-internal-errors", File: bulk,
-			Old: "\t\terrorsInBulk = true\n", New: "\t\terrorsInBulk = errorsInBulk || code == sharedapi.ErrorInternal\n", Expect: "R18d:"},
+			Old: "\t\terrorsInBulk = true\n", New: "\t\terrorsInBulk = errorsInBulk || code == sharedapi.ErrorInternal\n", Expect: "R18e:"},
 		Mutant{Property: "C18", Name: "handler-ignores-flag", File: ctl,
 			Old: "\tif err != nil || errorsInBulk {", New: "\tif err != nil {\n\t\t_ = errorsInBulk", Expect: "R18d:bulkHandler"},
 		Mutant{Property: "C18", Name: "elements-processed-concurrently", File: bulk,
